@@ -90,6 +90,22 @@ def pkey(program):
 
 
 # --------------------------------------------------------------------------- lookups
+def effective(program):
+    """The program with every `set` statement folded into the arguments of the object it assigns to: what the
+    library sees when the solver is built (weights, productivities ... are read then, not at construction)."""
+    sets = [d for d in program["decls"] if d["k"] == "set"]
+    if not sets:
+        return program
+    out = []
+    for d in program["decls"]:
+        if d["k"] == "new" and d.get("id"):
+            for s_ in sets:
+                if s_["obj"] == d["id"]:
+                    d = dict(d, args=dict(d["args"], **{s_["attr"]: s_["value"]}))
+        out.append(d)
+    return dict(program, decls=out)
+
+
 def decl_by_id(program):
     return {d["id"]: d for d in program["decls"] if d["k"] == "new" and d.get("id")}
 
